@@ -57,13 +57,13 @@ def programs(tier):
     thorough = tier == "thorough"
     seeds = (0, 1, 2, 3, 4) if thorough else (0, 1)
     plan = [
-        ("gen0", 12 if not thorough else 40, ["node-nmap-ping-scan", "node-nmap-port-scan", "node-network-service-recon", "router-acl-add-rule",
+        ("gen0", 12 if not thorough else 24, ["node-nmap-ping-scan", "node-nmap-port-scan", "node-network-service-recon", "router-acl-add-rule",
                                               "node-shutdown", "node-application-execute"]),
         # observation lists that name an entry twice; ACL rules with listed addresses inside the observed window
-        ("gen4", 8 if not thorough else 24, ["router-acl-add-rule", "router-acl-remove-rule"]),
-        ("data_manipulation", 14 if not thorough else 60, ["router-acl-addrule", "node-shutdown", "node-file-delete", "router-acl-add-rule"]),
-        ("uc7", 34 if not thorough else 50, ["node-shutdown", "router-acl-add-rule"]),  # TAP001 reaches its first scan/recon pair
-        ("uc7_tap003", 10 if not thorough else 50, ["node-shutdown"]),
+        ("gen4", 8 if not thorough else 16, ["router-acl-add-rule", "router-acl-remove-rule"]),
+        ("data_manipulation", 14 if not thorough else 40, ["router-acl-addrule", "node-shutdown", "node-file-delete", "router-acl-add-rule"]),
+        ("uc7", 34 if not thorough else 40, ["node-shutdown", "router-acl-add-rule"]),  # TAP001 reaches its first scan/recon pair
+        ("uc7_tap003", 10 if not thorough else 30, ["node-shutdown"]),
     ]
     for scen, steps, names in plan:
         idx = _action_index(scen, names)
@@ -147,7 +147,7 @@ def _explain(prog, w1, h1, w2, h2):
 def run(tier, is_known):
     t0 = time.time()
     thorough = tier == "thorough"
-    hashseeds = list(range(8)) if thorough else [0, 1, 2]
+    hashseeds = list(range(4)) if thorough else [0, 1, 2]
     worlds = FULL_WORLDS if thorough else COVER_WORLDS
     progs = programs(tier)
     # split the programs over processes so that all cores are used: hashseed x chunk
